@@ -176,10 +176,15 @@ func WalkExpr(v ssa.Value, f func(ssa.Value) bool) {
 		case *ssa.UnOp:
 			if x.Op == token.MUL {
 				if _, ok := x.X.(*ssa.Alloc); ok {
+					n := 0
 					for _, s := range resolveLocal(x) {
 						if s != v {
 							rec(s, d+1)
+							n++
 						}
+					}
+					if n == 0 {
+						rec(x.X, d+1) // a composite literal cell: its field / element stores
 					}
 					return
 				}
@@ -221,6 +226,9 @@ func WalkExpr(v ssa.Value, f func(ssa.Value) bool) {
 			rec(x.Index, d+1)
 		case *ssa.Slice:
 			rec(x.X, d+1)
+			rec(x.Low, d+1)
+			rec(x.High, d+1)
+			rec(x.Max, d+1)
 		case *ssa.TypeAssert:
 			rec(x.X, d+1)
 		case *ssa.Next:
